@@ -39,7 +39,11 @@ func (ws *writeSummary) merge(o *writeSummary) {
 		ws.allocs = true
 	}
 	for f, fw := range o.fams {
-		_ = fw
+		if fw.freshOnly && !fw.all && len(fw.bases) == 0 {
+			// the callee writes only objects it allocated itself
+			ws.get(f).freshOnly = true
+			continue
+		}
 		ws.all(f) // bases of a callee are meaningless in the caller
 	}
 }
@@ -72,6 +76,13 @@ func baseKind(v ssa.Value, region map[*ssa.BasicBlock]bool) int {
 }
 
 func (ws *writeSummary) write(fam string, base ssa.Value, region map[*ssa.BasicBlock]bool) {
+	if region == nil {
+		// summary of a whole function: stores into its own non-escaping locals are
+		// invisible to every caller
+		if a, ok := base.(*ssa.Alloc); ok && !a.Heap {
+			return
+		}
+	}
 	fw := ws.get(fam)
 	switch baseKind(base, region) {
 	case 0:
@@ -133,6 +144,9 @@ func (c *Ctx) summarizeInstr(ws *writeSummary, fn *ssa.Function, ins ssa.Instruc
 func (c *Ctx) summarizeAllocInit(ws *writeSummary, ins ssa.Instruction, region map[*ssa.BasicBlock]bool) {
 	switch x := ins.(type) {
 	case *ssa.Alloc:
+		if region == nil && !x.Heap {
+			return
+		}
 		el := deref(x.Type())
 		switch u := el.Underlying().(type) {
 		case *types.Struct:
@@ -222,6 +236,12 @@ func (c *Ctx) summarizeCall(ws *writeSummary, fn *ssa.Function, call *ssa.CallCo
 			c.summarizeContract(ws, ct)
 			return
 		}
+		if dyn, ok := c.dispatch[c.ifaceName(call)]; ok {
+			if f := c.Prog.LookupMethod(dyn, call.Method.Pkg(), call.Method.Name()); f != nil {
+				c.summarizeStatic(ws, f, call, depth, region)
+				return
+			}
+		}
 		if c.isRepoType(call.Value.Type()) {
 			ws.top = true
 			return
@@ -299,8 +319,9 @@ func (c *Ctx) summarizeStatic(ws *writeSummary, f *ssa.Function, call *ssa.CallC
 func (c *Ctx) funcSummary(f *ssa.Function, depth int) *writeSummary {
 	if s, ok := c.summaries[f]; ok {
 		if s == nil {
-			// recursion
-			return &writeSummary{top: true, fams: map[string]*famWrite{}}
+			// recursion: the recursive call contributes what the function itself contributes
+			// (least fixpoint of a union), i.e. nothing new
+			return &writeSummary{fams: map[string]*famWrite{}}
 		}
 		return s
 	}
@@ -352,6 +373,8 @@ func (c *Ctx) summarizeContract(ws *writeSummary, ct *Contract) {
 			ws.top = true
 		case strings.HasPrefix(m, "fam "):
 			ws.all(strings.TrimSpace(m[4:]))
+		case strings.HasPrefix(m, "fields "), strings.HasPrefix(m, "elems "):
+			c.summarizeTypeItem(ws, m)
 		default:
 			// object-level items are resolved at the call site; at summary level be conservative
 			ws.top = true
@@ -492,4 +515,30 @@ func (c *Ctx) baseRef(st *State, fr *Frame, b ssa.Value) Term {
 		return c.LowerLoc(st, x)
 	}
 	return c.FreshConst(st, "base", SInt)
+}
+
+func (c *Ctx) summarizeTypeItem(ws *writeSummary, m string) {
+	kind, txt := splitWord(m)
+	var pkg *types.Package
+	if c.cur != nil && c.cur.fn != nil {
+		pkg = c.typesPkgOf(c.cur.fn)
+	}
+	t, err := c.resolveType(pkg, txt)
+	if err != nil {
+		ws.top = true
+		return
+	}
+	if kind == "elems" {
+		f, _ := c.famElem(t)
+		ws.all(f)
+		return
+	}
+	if sty, ok := t.Underlying().(*types.Struct); ok {
+		for i := 0; i < sty.NumFields(); i++ {
+			f, _ := c.famField(t, i)
+			ws.all(f)
+		}
+		return
+	}
+	ws.top = true
 }
